@@ -58,6 +58,8 @@ def signature(kind, small, detail):
 def replay(witness):
     if witness.get("phase") == "nav":
         return nav_phase({"seed": 0, "n": 0, "fixed": [witness], "time_budget": 60})["violations"]
+    if witness.get("phase") == "ns":
+        return ns_phase({"seed": 0, "n": 0, "fixed": [witness]})["violations"]
     return canon_run.replay(PROP, witness)
 
 
@@ -160,6 +162,55 @@ def nav_phase(spec):
     return st.to_dict()
 
 
+# --- phase 3: raw strings with a namespace prefix on the MathML elements and attributes from a foreign namespace -------------------------
+FOREIGN = [("h:href", "href"), ("h:class", "class"), ("h:id", None), ("h:style", "style"), ("h:title", "title"), ("h:lang", "lang"), ("h:dir", "dir")]
+
+
+def ns_inputs(rng, n):
+    """textbook expressions written as <m:math xmlns:m='...MathML' xmlns:h='urn:...'> with attributes that differ only in their namespace
+    on one element (h:href next to href, h:id on an element that gets a generated id, ...)"""
+    import re as _re
+    out = []
+    for _ in range(n):
+        xml = gen.Textbook(rng, max_depth=rng.choice([1, 2])).expression()[0].xml()
+        body = _re.sub(r"<(/?)([a-zA-Z])", r"<\1m:\2", xml)
+        opens = [m for m in _re.finditer(r"<m:(?!math\b)[a-z]+", body)]
+        for m in sorted(rng.sample(opens, min(len(opens), rng.randint(1, 3))), key=lambda m: -m.end()):
+            a, b = rng.choice(FOREIGN)
+            ins = " %s='f%d'" % (a, rng.randint(0, 9)) + (" %s='p%d'" % (b, rng.randint(0, 9)) if b and rng.random() < 0.7 else "")
+            body = body[:m.end()] + ins + body[m.end():]
+        body = body.replace("<m:math", "<m:math xmlns:m='http://www.w3.org/1998/Math/MathML' xmlns:h='urn:x-other-vocabulary'", 1)
+        out.append(body)
+    return out
+
+
+def ns_phase(spec):
+    st = core.Stats()
+    rng = random.Random(spec["seed"])
+    cases = list(spec.get("fixed", [])) + [{"phase": "ns", "raw": x} for x in ns_inputs(rng, spec["n"])]
+    with core.Session({"TTS": "None"}) as sess:
+        for case in cases:
+            r = sess.call("set_mathml", case["raw"], timeout=30)
+            if r is None or r["r"] != "ok":
+                st.count("ns_set_mathml_not_ok_not_judged")
+                continue
+            st.evaluations += 1
+            st.count("ns_results_judged")
+            try:
+                root = ET.fromstring(r["v"])
+            except ET.ParseError as e:
+                st.violations.append(core.violation("not-well-formed", "not-well-formed | raw input with foreign-namespace attributes", case,
+                                                    "returned string is not well-formed XML: %s | input %s | returned %s" % (e, case["raw"][:400], r["v"][:400])))
+                break
+            probs = canon.structure_problems(root)
+            if probs:
+                st.violations.append(core.violation(probs[0][0] + ":" + probs[0][1], "%s:%s | raw input with foreign-namespace attributes" % (probs[0][0], probs[0][1]), case,
+                                                    "%s | input %s" % (probs[0][2], case["raw"][:400])))
+                break
+            st.nontrivial.add(core.h16(case["raw"]))
+    return st.to_dict()
+
+
 def run(tier, seed):
     t0 = time.time()
     core.build_driver("native")
@@ -170,6 +221,7 @@ def run(tier, seed):
     results = core.run_shards(canon_run.shard, specs)
     nav_specs = [{"seed": core.sub_seed(seed, PROP, "nav", i), "n": 60 if tier == "quick" else 2500, "time_budget": 40 if tier == "quick" else 600} for i in range(core.NPROC)]
     results += core.run_shards(nav_phase, nav_specs)
+    results += core.run_shards(ns_phase, [{"seed": core.sub_seed(seed, PROP, "ns", i), "n": 60 if tier == "quick" else 3000} for i in range(core.NPROC)])
     stats, errors = core.Stats.merge(results)
     known, fixed_failures, extra_v = core.replay_findings(PROP, replay)
     stats.violations.extend(extra_v)
@@ -180,5 +232,6 @@ def run(tier, seed):
         t0,
         rule="the C01 workload (systematic parent x empty-like child table + random degenerate MathML + textbook expressions) plus tokens and data-* attributes made of "
              "characters that need escaping; every Ok result is parsed strictly, validated structurally and round-tripped; second phase: random navigation walks compare "
-             "get_navigation_mathml with the sub-tree of the set_mathml result; non-trivial = Ok result judged; distinct by element skeleton / walk",
+             "get_navigation_mathml with the sub-tree of the set_mathml result; third phase: raw strings with a namespace prefix on the MathML elements and attributes of a "
+             "foreign namespace that share a local name with another attribute of the element; non-trivial = Ok result judged; distinct by element skeleton / walk",
         min_nontrivial=500, harness_errors=errors, known_replayed=known, fixed_failures=fixed_failures)
